@@ -14,6 +14,8 @@ TRUSTED = ['clang 14 AST + constant evaluation', 'bsfacts', 'bsv/dtab.py interpr
 
 
 def run(prog, rep):
+    from rules import adapter_twins
+    adapter_twins.check(prog, rep, 'R10.18')
     from rules import narrow_counters
     narrow_counters.check(prog, rep, 'R10.16')
     from rules import csvunescape
